@@ -217,9 +217,16 @@ def make_translator(m, out=None):
     return t
 
 
+def stable(text):
+    """Drop source line numbers and tree prefixes from the provenance comments, so that an edit elsewhere in the
+    file (or running against a scratch worktree) does not change the generated text and force a rebuild."""
+    import re
+    return re.sub(r'\(\* \S*?(pcbasic/[\w/.]+):\d+ ', r'(* \1 ', text)
+
+
 def generate(repo):
     m = Module(os.path.join(repo, SOURCES[0]))
     check_field_stores(m)
     setitem_shape(m)
     t = make_translator(m)
-    return (HEADER + 'From PCB Require Import lib.GfxPrims.\n' + '\n'.join(t.out) + '\n')
+    return stable(HEADER + 'From PCB Require Import lib.GfxPrims.\n' + '\n'.join(t.out) + '\n')
